@@ -903,10 +903,11 @@ def eval (env : Env) : Nat → Expr → Vars → St → M (Val × St)
                  M.pure (.ref a, st)
                | Option.none => callExt env .none g (as ++ ks) st)
       | .attr (.name "heapq") hop =>
-        -- `heapq` on a list held in an object's field.  Contract modelled: the list is kept *sorted*
-        -- by the elements' `__lt__` (a sorted list is a heap), so `q[0]` is the least element as in
-        -- CPython; the positions of the other elements are CPython's heap layout there and sorted
-        -- order here (compared as multisets by the differential check).
+        -- `heapq` on a list held in an object's field.  Contract modelled: `q[0]` is the least element
+        -- by the elements' `__lt__` (true of any heap, in particular of a sorted list): `heappush`
+        -- inserts before the first element the new one is less than, `heappop` removes the least and
+        -- sorts the rest, `heapify` sorts.  The positions of the other elements are CPython's heap
+        -- layout there and (eventually) sorted order here: compared as multisets by the differential check.
         (match args with
          | target :: rest => do
            let (q, st) ← eval env n target vars st
@@ -920,7 +921,11 @@ def eval (env : Env) : Nat → Expr → Vars → St → M (Val × St)
              (match l with
               | [] => M.fail (.raise "IndexError")
               | x :: xs => do
+                -- the least element leaves; the others are put in order (CPython restores the heap
+                -- property here, so that `q[0]` is the least of what is left — also when the list came
+                -- in CPython's heap layout, which is not sorted)
                 let (m, rest, st) ← popMin env n x xs st
+                let (rest, st) ← sortAll env n rest st
                 let (_, st) ← storeField env n target (.list rest) vars st
                 M.pure (m, st))
            | .list l, "heapify", [] => do
